@@ -278,8 +278,17 @@ class Gen:
                 self._composite = True
                 how = rng.choice(('exitinfo', 'exitinfo', 'aborted', 'oom', 'sigabrt'))
                 ops = [('drain',), ('ready', 0), ('drain',), ('ready', 1),
-                       ('put', inst, self._new_gen(), False, _shape(rng)), ('deliver', 1),
-                       ('exit', inst, how), ('tomb', inst), ('monitor',)]
+                       ('put', inst, self._new_gen(), False, _shape(rng)), ('deliver', 1)]
+                if rng.random() < 0.3:
+                    # ... or the instance is evicted and placed again on this node while its first created event is still
+                    # queued: the late event meets a cache entry that is already the next generation's
+                    ops += [('del', inst), ('put', inst, self._new_gen(), False, _shape(rng))]
+                    if rng.random() < 0.5:
+                        ops.append(('deliver', 1))
+                    ops.append(('drain',))
+                    self.planned_late_replace = getattr(self, 'planned_late_replace', 0) + 1
+                    return ops
+                ops += [('exit', inst, how), ('tomb', inst), ('monitor',)]
                 r = rng.random()
                 if r < 0.5:
                     ops.append(('clean', 0, rng.choice((0.05, 0.3, 0.6, 0.9))))
